@@ -25,7 +25,7 @@ EXPLANATION = (
     "The module is parsed, never imported.  H2Connection and H2Stream become model objects whose methods are the repository's own functions (interpreted over the "
     "AST); the h2 state machine, the priority tree, the reactor, the transport and the body producers are small synchronous checker models.  Decided by running "
     "finite schedules and comparing with an oracle (plus, structurally: the stream a turn serves is defined only by next(self.priority) in that turn - no stream identity survives a "
-    "wait, so a stream torn down meanwhile cannot kill the loop; the bound of a frame is min(max frame size, window), floored at 0): (a) one turn of _sendPrioritisedData for every chunk length 0..6, max frame size 0..4 and window -3..4: at most "
+    "wait, so a stream torn down meanwhile cannot kill the loop; the bound of a frame is min(max frame size, window), floored at 0; the priority tree's capacity, root included, exceeds the stream limit the server advertises - constant evaluation against two frozen third-party facts, see ASSUMPTIONS): (a) one turn of _sendPrioritisedData for every chunk length 0..6, max frame size 0..4 and window -3..4: at most "
     "one DATA frame, never longer than min(max frame, window), `sent + requeued-at-the-front` is the chunk, END_STREAM only for the sentinel; the negative-window "
     "cases were F29 (fixed: the bound is floored at zero; the revert is a mutant); (b) the loop always continues: after a data / end-of-stream turn it re-schedules itself once, on deadlock it parks on a fresh "
     "Deferred that re-enters it, behind a paused transport it waits on _consumerBlocked, after stopProducing it stops; (c) whole-response schedules over one and two "
@@ -35,13 +35,15 @@ EXPLANATION = (
     "inlined) the stream's queue is known non-empty.  Not decided: liveness under arbitrary reactor schedules, byte equality at a real peer."
 )
 RULE_KINDS = {
-    "clamp/send-within-bound": "structural", "loop/continues-structural": "structural", "loop/stream-chosen-this-turn": "structural", "backpressure/blocked-guard": "structural", "backpressure/resume-guard": "structural",
+    "clamp/send-within-bound": "structural", "loop/continues-structural": "structural", "loop/stream-chosen-this-turn": "structural", "capacity/tree-holds-advertised-streams": "structural", "backpressure/blocked-guard": "structural", "backpressure/resume-guard": "structural",
     "wakeup/unblock-only-with-data": "structural",
     "clamp/frame-within-window": "finite-exhaustive", "clamp/negative-window": "finite-exhaustive", "clamp/end-after-data": "finite-exhaustive", "backpressure/remaining-window": "finite-exhaustive",
     "loop/": "bounded", "schedule/": "bounded", "wakeup/": "bounded", "queue/": "bounded", "backpressure/": "bounded",
 }
 ASSUMPTIONS = ["h2's local_flow_control_window / max_outbound_frame_size report the peer's limits (modelled: min(stream window, connection window))",
-               "the priority tree yields only unblocked streams and raises DeadlockError when there is none"]
+               "the priority tree yields only unblocked streams and raises DeadlockError when there is none",
+               "FROZEN third-party facts (not part of /repo; re-check when the pinned versions change): priority.PriorityTree(maximum_streams=1000) by default, the tree's root node counts "
+               "against maximum_streams, insert_stream raises TooManyStreamsError beyond it; h2 advertises SETTINGS_MAX_CONCURRENT_STREAMS = 100 unless update_settings is called"]
 
 C = "H2Connection"
 SENTINEL = object()
@@ -452,6 +454,55 @@ def _s_backpressure_guards(ctx):
                   f"resumeProducing() is reachable with (producer registered, producing) in {reach_states}: it is not confined to a registered, paused producer")
 
 
+ADVERTISED = "self.conn.local_settings.max_concurrent_streams"
+H2_DEFAULT_MAX_CONCURRENT_STREAMS = 100          # h2.settings: the value a server advertises unless told otherwise (third-party fact, frozen; see ASSUMPTIONS)
+PRIORITY_DEFAULT_MAXIMUM_STREAMS = 1000          # priority.PriorityTree(maximum_streams=1000); its root node counts against the limit (third-party fact, frozen)
+
+
+def _s_tree_capacity(ctx):
+    """STRUCTURAL / constant evaluation: every stream the server itself allows (SETTINGS_MAX_CONCURRENT_STREAMS it advertises) fits into the priority tree - the tree's
+    `maximum_streams` (which also counts the tree's root) is at least advertised + 1 - so the TooManyStreamsError of insert_stream, which _requestReceived does not handle, cannot be
+    reached by a peer that stays within the advertised limit.  An escaping TooManyStreamsError would leave dataReceived and strand every flow-control-blocked response"""
+    from sa.props._lib_f import subst_eval
+    from sa.astx import NotConst, module_consts
+    f = ctx.func(H2, C + ".__init__")
+    q = Q + C + ".__init__"
+    trees = [c for c in walk_local(f) if isinstance(c, ast.Call) and (call_name(c) or "").split(".")[-1] == "PriorityTree"]
+    if len(trees) != 1:
+        raise Abstain(f"{len(trees)} PriorityTree(...) constructions in H2Connection.__init__")
+    t = trees[0]
+    cap = next((k.value for k in t.keywords if k.arg == "maximum_streams"), t.args[0] if t.args else None)
+    if any(k.arg is None for k in t.keywords) or any(isinstance(a_, ast.Starred) for a_ in t.args):
+        raise Abstain("the arguments of PriorityTree(...) are not explicit")
+    # does twisted change what it advertises?  (then the frozen h2 default is not the advertised value)
+    mod_src = ctx.mod(H2).text if hasattr(ctx.mod(H2), "text") else ""
+    changes = [c for fn in [n for n in ast.walk(ctx.cls(H2, C)) if isinstance(n, ast.FunctionDef)] for c in ast.walk(fn)
+               if (isinstance(c, ast.Call) and call_attr(c) == "update_settings") or
+                  (isinstance(c, ast.Attribute) and c.attr == "max_concurrent_streams" and isinstance(c.ctx, ast.Store))]
+    if changes:
+        raise Abstain("the connection changes its advertised settings; the advertised stream limit is not the frozen h2 default")
+    if cap is None:
+        ctx.ok("capacity/tree-holds-advertised-streams", q + " | PriorityTree()",
+               f"no maximum_streams given: the library default {PRIORITY_DEFAULT_MAXIMUM_STREAMS} (root included) exceeds the advertised {H2_DEFAULT_MAX_CONCURRENT_STREAMS} streams")
+        return
+    env = dict(module_consts(ctx.mod(H2)))
+    depends = ADVERTISED in src(cap) or "max_concurrent_streams" in src(cap)
+    short = []
+    try:
+        for adv in ((1, 2, H2_DEFAULT_MAX_CONCURRENT_STREAMS, 999, 1000, 2 ** 31 - 1) if depends else (H2_DEFAULT_MAX_CONCURRENT_STREAMS,)):
+            v = subst_eval(cap, {ADVERTISED: adv}, env, {})
+            if not isinstance(v, int) or isinstance(v, bool):
+                raise Abstain(f"maximum_streams evaluates to {v!r}")
+            if v < adv + 1:
+                short.append((adv, v))
+    except NotConst as e:
+        raise Abstain(f"maximum_streams=`{src(cap)}` could not be evaluated ({e})")
+    ctx.check(not short, "capacity/tree-holds-advertised-streams", q + f" | PriorityTree(maximum_streams={src(cap)[:60]})",
+              (f"with {short[0][0]} streams advertised the priority tree is limited to {short[0][1]} nodes INCLUDING its root, i.e. {short[0][1] - 1} streams: the last stream the server "
+               "itself allows raises priority.TooManyStreamsError in _requestReceived (only DuplicateStreamError is handled there), the exception leaves dataReceived and the "
+               "flow-control-blocked responses in flight are never delivered") if short else "")
+
+
 def _s_stream_fresh(ctx):
     """STRUCTURAL (def-use): the stream a turn of the send loop serves was chosen by the priority tree IN THAT TURN.  Every name used as the stream key (index of the per-stream
     queues, stream argument of the h2 connection) is defined in the function only by `next(self.priority)` (or the None placeholder before it) - never by a parameter, an
@@ -514,7 +565,8 @@ def _s_stream_fresh(ctx):
 
 
 def check(ctx):
-    for name, fn in (("s-stream-fresh", lambda c: structural(c, "loop/stream-chosen-this-turn", "loop/continues (bounded)", _s_stream_fresh, c)),
+    for name, fn in (("s-tree-capacity", lambda c: structural(c, "capacity/tree-holds-advertised-streams", "nothing else (third-party limits: not covered by the bounded schedules)", _s_tree_capacity, c)),
+                     ("s-stream-fresh", lambda c: structural(c, "loop/stream-chosen-this-turn", "loop/continues (bounded)", _s_stream_fresh, c)),
                      ("s-window-guards", lambda c: structural(c, "clamp/send-within-bound", "clamp/frame-within-window (finite-exhaustive evaluation)", _s_window_guards, c)),
                      ("s-backpressure-guards", lambda c: structural(c, "backpressure/blocked-guard", "backpressure/* scenarios (bounded)", _s_backpressure_guards, c)),
                      ("clamp", _clamp), ("loop", _loop_continues), ("schedules", _schedules), ("backpressure", _backpressure), ("unblock-sites", _unblock_sites)):
@@ -904,6 +956,8 @@ def _unblock_sites(ctx):
 
 
 MUTANTS = [
+    Mutant("priority-tree-sized-for-a-handful-of-streams", H2, "        self.priority = priority.PriorityTree()\n", "        self.priority = priority.PriorityTree(maximum_streams=64)\n", expect_rule="capacity/"),
+    Mutant("priority-tree-sized-exactly-to-the-advertised-limit", H2, "        self.priority = priority.PriorityTree()\n", "        self.priority = priority.PriorityTree(self.conn.local_settings.max_concurrent_streams)\n", expect_rule="capacity/"),
     Mutant("resume-guard-predicate-asked-for-the-wrong-state", H2, "        # If we don't have a producer, we have no-one to tell.\n        if not self.producer:\n            return\n\n        # If we're not blocked on flow control, we don't care.\n        if self._producerProducing:\n            return\n\n        # We check whether the stream's flow control window is actually above\n", "        if not self._producerInState(True):\n            return\n\n        # We check whether the stream's flow control window is actually above\n", more=[(H2, '    def flowControlBlocked(self):', '    def _producerInState(self, producing):\n        if not self.producer:\n            return False\n        return bool(self._producerProducing) == producing\n\n    def flowControlBlocked(self):')], expect_rule="backpressure/"),
     Mutant("stream-selector-prefers-a-remembered-stream", H2, '        stream = None\n\n        while stream is None:\n            try:\n                stream = next(self.priority)\n            except priority.DeadlockError:\n                # All streams are currently blocked or not progressing. Wait\n                # until a new one becomes available.\n                assert self._sendingDeferred is None\n                self._sendingDeferred = Deferred()\n                self._sendingDeferred.addCallback(self._sendPrioritisedData)\n                return\n', '        stream = self._pickStream()\n        if stream is None:\n            return\n',
            more=[(H2, '    def _sendPrioritisedData(self, *args):', '    def _pickStream(self):\n        if getattr(self, chr(95) + chr(108), None) is not None:\n            return self._l\n        while True:\n            try:\n                picked = next(self.priority)\n            except priority.DeadlockError:\n                assert self._sendingDeferred is None\n                self._sendingDeferred = Deferred()\n                self._sendingDeferred.addCallback(self._sendPrioritisedData)\n                return None\n            if picked is not None:\n                return picked\n\n    def _sendPrioritisedData(self, *args):')], expect_rule="loop/stream-chosen-this-turn"),
@@ -937,6 +991,8 @@ MUTANTS = [
     Mutant("end-stream-before-sentinel", H2, "        if frameData is _END_STREAM_SENTINEL:\n            # There's no error handling here even though", "        if frameData is _END_STREAM_SENTINEL or not frameData:\n            # There's no error handling here even though"),
 ]
 SILENT = [
+    Silent("priority-tree-with-room-for-the-root", H2, "        self.priority = priority.PriorityTree()\n", "        self.priority = priority.PriorityTree(maximum_streams=self.conn.local_settings.max_concurrent_streams + 1)\n"),
+    Silent("priority-tree-default-capacity-spelled-out", H2, "        self.priority = priority.PriorityTree()\n", "        self.priority = priority.PriorityTree(maximum_streams=1000)\n"),
     Silent("resume-guard-through-a-state-predicate", H2, "        # If we don't have a producer, we have no-one to tell.\n        if not self.producer:\n            return\n\n        # If we're not blocked on flow control, we don't care.\n        if self._producerProducing:\n            return\n\n        # We check whether the stream's flow control window is actually above\n", "        if not self._producerInState(False):\n            return\n\n        # We check whether the stream's flow control window is actually above\n", more=[(H2, '    def flowControlBlocked(self):', '    def _producerInState(self, producing):\n        if not self.producer:\n            return False\n        return bool(self._producerProducing) == producing\n\n    def flowControlBlocked(self):')]),
     Silent("stream-chosen-by-a-selector-helper-that-parks-the-loop", H2, '        stream = None\n\n        while stream is None:\n            try:\n                stream = next(self.priority)\n            except priority.DeadlockError:\n                # All streams are currently blocked or not progressing. Wait\n                # until a new one becomes available.\n                assert self._sendingDeferred is None\n                self._sendingDeferred = Deferred()\n                self._sendingDeferred.addCallback(self._sendPrioritisedData)\n                return\n', '        stream = self._pickStream()\n        if stream is None:\n            return\n', more=[(H2, '    def _sendPrioritisedData(self, *args):', '    def _pickStream(self):\n        while True:\n            try:\n                picked = next(self.priority)\n            except priority.DeadlockError:\n                assert self._sendingDeferred is None\n                self._sendingDeferred = Deferred()\n                self._sendingDeferred.addCallback(self._sendPrioritisedData)\n                return None\n            if picked is not None:\n                return picked\n\n    def _sendPrioritisedData(self, *args):')]),
     # firing the parked Deferred before clearing the attribute is not observable: the re-entered loop has an unblocked stream, so it cannot park again in that turn
